@@ -439,7 +439,9 @@ fn stream_nontrivial(sc: &Scenario, rr: &RunResult) -> bool {
 }
 
 pub fn lanes_for(prop: &str) -> Vec<Lane> {
-    lanes().into_iter().filter(|l| l.prop == prop).collect()
+    // the binary built against ldap3's rustls backend only runs the lanes in which TLS code runs at all
+    let on_real_transport = |f: &str| matches!(f, "REALIO" | "ESTABURL" | "ESTABTLS");
+    lanes().into_iter().filter(|l| l.prop == prop && (!cfg!(feature = "rustls-backend") || on_real_transport(l.family))).collect()
 }
 
 pub fn family_id(f: &str) -> u64 {
